@@ -1171,6 +1171,29 @@ parameter_t make_param(rng_t& rng, const std::string& variant, const std::string
         param.*steal(param_storage_tag{}) = parameter_t::enum_t{std::move(value), std::move(domain)};
         return param;
     }
+    // a single-point domain (min == value == max with <= on every side) is a valid parameter: it can be built, written and must
+    // be read back (seeded change C15-h1: a 'corrupted stream' guard min >= max in the readers)
+    if ((variant == "irange" || variant == "frange" || variant == "iprange" || variant == "fprange") && rng.chance(8U))
+    {
+        const auto le = ::nano::LE;
+        if (variant == "irange")
+        {
+            const auto v = rand_i64(rng);
+            return parameter_t::make_integer(name, v, le, v, le, v);
+        }
+        if (variant == "frange")
+        {
+            const auto v = rand_f64(rng);
+            return parameter_t::make_scalar(name, v, le, v, le, v);
+        }
+        if (variant == "iprange")
+        {
+            const auto v = rand_i64(rng);
+            return parameter_t::make_integer_pair(name, v, le, v, le, v, le, v);
+        }
+        const auto v = rand_f64(rng);
+        return parameter_t::make_scalar_pair(name, v, le, v, le, v, le, v);
+    }
     if (variant == "irange")
     {
         const auto mincomp = rand_comp(rng);
